@@ -117,11 +117,20 @@ def r2(ctx: Ctx) -> None:
     ctx.site(fs.where, "create_squares: square for exactly the modules with no rectangle")
     ok = False
     if len(loops) == 1:
+        # every way through one iteration: the square is created exactly when the module has no rectangle (the count is a
+        # length, so 'not (count > 0)' says the same as 'count == 0')
+        from framelint.peval import traces
         v = loops[0][1]
-        ifs = [st for st in loops[0][3] if st[0] == "if"]
-        if len(ifs) == 1 and ifs[0][1] == mk_eq(("a", v, "num_rectangles"), k_num(0)) and \
-                contains(ifs[0][2], ("c", ("a", v, "create_square"), (), ())) and not contains(ifs[0][3], "create_square"):
-            ok = True
+        n_ = ("a", v, "num_rectangles")
+        none_ = {mk_eq(n_, k_num(0)), mk_not(mk_lt(k_num(0), n_)), mk_not(("a", v, "rectangles"))}
+        some_ = {mk_not(mk_eq(n_, k_num(0))), mk_lt(k_num(0), n_), ("a", v, "rectangles")}
+        call = ("c", ("a", v, "create_square"), (), ())
+        trs = traces(loops[0][3], keep_sets=True)
+        ok = bool(trs)
+        for lits, effs, out in trs:
+            made = any(contains(e, call) for e in effs)
+            if made != bool(none_ & set(lits)) or (not made and not (some_ & set(lits))):
+                ok = False
     if not ok:
         ctx.report(fs.where, "create-squares-guard", "create_squares does not call create_square() for exactly the modules with num_rectangles == 0",
                    lineno=fs.node.lineno)
